@@ -32,6 +32,8 @@ TOTAL_ON = {
 # neither here nor panicky is reported as `unknown-external`
 TRUSTED_TOTAL_PREFIXES = (
     "core::str::", "std::str::", "str::", "std::string::String::", "std::vec::Vec::", "std::collections::HashMap::",
+    "std::collections::HashSet::", "std::collections::BTreeMap::", "std::collections::BTreeSet::", "std::collections::VecDeque::",
+    "std::collections::hash_map::", "std::collections::hash_set::", "std::collections::btree_map::", "std::collections::btree_set::", "std::collections::vec_deque::",
     "std::option::Option::", "std::result::Result::", "std::iter::Iterator::", "std::fmt::", "core::fmt::",
     "std::hint::", "std::sync::Arc::", "std::sync::atomic::Atomic::", "std::cmp::", "std::default::Default::default",
     "std::slice::", "core::slice::", "std::ops::RangeInclusive::new", "std::borrow::", "std::convert::", "std::clone::",
